@@ -135,6 +135,24 @@ func ReadBack(e *core.Env, res *wprog.Result, image []byte) {
 		e.Fail("info", nil, "Info: %s", d)
 		return
 	}
+	if want := res.Catalog; want != nil {
+		got := meta.Catalog
+		if want.PageLayout != got.PageLayout || want.PageMode != got.PageMode {
+			e.Fail("catalog", nil, "catalog PageLayout/PageMode written %q/%q, read back %q/%q", want.PageLayout, want.PageMode, got.PageLayout, got.PageMode)
+			return
+		}
+		for name, pair := range map[string][2]pdf.Object{"ViewerPreferences": {want.ViewerPreferences, got.ViewerPreferences}, "MarkInfo": {want.MarkInfo, got.MarkInfo}, "URI": {want.URI, got.URI}} {
+			w, g := pair[0], pair[1]
+			if ref, isRef := g.(pdf.Reference); isRef {
+				g, _ = r.Get(ref, true)
+			}
+			if d := gen.Diff(w, g, ""); d != "" {
+				e.Fail("catalog", nil, "catalog /%s: %s", name, d)
+				return
+			}
+		}
+		e.Probe("catalog fields round trip")
+	}
 
 	for _, ref := range res.SortedRefs() {
 		exp := res.Written[ref]
@@ -227,11 +245,14 @@ func infoDiff(want, got *pdf.Info) string {
 	if got == nil {
 		return fmt.Sprintf("written %+v, read back nil", *want)
 	}
-	if want.Title != got.Title || want.Author != got.Author || want.Keywords != got.Keywords || want.Subject != got.Subject {
+	if want.Title != got.Title || want.Author != got.Author || want.Keywords != got.Keywords || want.Subject != got.Subject || want.Creator != got.Creator || want.Producer != got.Producer {
 		return fmt.Sprintf("written %+v, read back %+v", *want, *got)
 	}
 	if !time.Time(want.CreationDate).Equal(time.Time(got.CreationDate)) {
 		return fmt.Sprintf("CreationDate written %v, read back %v", want.CreationDate, got.CreationDate)
+	}
+	if !time.Time(want.ModDate).Equal(time.Time(got.ModDate)) {
+		return fmt.Sprintf("ModDate written %v, read back %v", want.ModDate, got.ModDate)
 	}
 	if len(want.Custom) != len(got.Custom) {
 		return fmt.Sprintf("Custom written %v, read back %v", want.Custom, got.Custom)
